@@ -1138,7 +1138,24 @@ def r9_error_reference_names_the_stored_response(ctx):
     ctx.check(R, "publication-site", pubs >= 1, "insertions of an ErrorResponse's response into a map: %d" % pubs, g, nontrivial=False)
 
 
-RULES = [("C07.R9", r9_error_reference_names_the_stored_response), ("C07.R8", r8_headers_wrapper_keeps_the_response), ("C07.R7", r7_framework_errors_use_endpoint_error_type), ("C07.R1", r1_type_parameter), ("C07.R2", r2_location), ("C07.R3", r3_content_type), ("C07.R4", r4_response),
+def r10_documented_media_type_is_accepted(ctx):
+    """`a request built from the document is accepted`: the documented media type is matched the way RFC 9110 defines media types
+    (parameters cut, whitespace trimmed, case folded).  This is C09.R8, re-evaluated here (adversary change C07-G dropped the case
+    folding: `Application/JSON` was refused)."""
+    from . import c09
+    from .lib_c01 import Renamed
+    c09.r8_media_type_normalised(Renamed(ctx, "C07.R10", "the request's media type is compared with the documented one after RFC 9110 normalisation"))
+
+
+def r11_schema_keywords_are_carried(ctx):
+    """`the documented schema is the schema of the Rust type`: every keyword of the type's JSON schema reaches the OpenAPI schema in its own
+    place.  This is C08.R1, re-evaluated here (adversary change C07-H swapped minLength and maxLength in j2oas_string)."""
+    from . import c08
+    from .lib_c01 import Renamed
+    c08.r1_mapping(Renamed(ctx, "C07.R11", "each JSON-schema keyword of a documented type is published under the OpenAPI keyword of the same meaning"))
+
+
+RULES = [("C07.R10", r10_documented_media_type_is_accepted), ("C07.R11", r11_schema_keywords_are_carried), ("C07.R9", r9_error_reference_names_the_stored_response), ("C07.R8", r8_headers_wrapper_keeps_the_response), ("C07.R7", r7_framework_errors_use_endpoint_error_type), ("C07.R1", r1_type_parameter), ("C07.R2", r2_location), ("C07.R3", r3_content_type), ("C07.R4", r4_response),
          ("C07.R5", r5_error_schema), ("C07.R6", r6_required)]
 
 A = "dropshot/src/api_description.rs"
@@ -1331,3 +1348,4 @@ SELFTEST = [
 
 LEVEL_TEXT += " Also (R7): every framework-generated error on the endpoint path is converted through the endpoint's declared error type before it becomes a response, so its body matches the documented error schema of a custom error type."
 LEVEL_TEXT += " Also (R9): the $ref an operation uses for its error responses names the components.responses entry that holds that error type's schema."
+LEVEL_TEXT += ' Also (R10 = C09.R8, R11 = C08.R1): the documented media type is matched after normalisation, and schema keywords are carried to the keyword of the same meaning.'
